@@ -443,6 +443,14 @@ func (e *exprCtx) call(c *ssa.CallCommon) string {
 	if n == "" {
 		n = "dyn:" + e.expr(c.Value)
 	}
+	// len(x[:k]) is k
+	if n == "builtin.len" {
+		if as := callArgs(c); len(as) == 1 {
+			if sl, ok := as[0].(*ssa.Slice); ok && sl.Low == nil && sl.High != nil && sl.Max == nil {
+				return e.expr(sl.High)
+			}
+		}
+	}
 	// binary.BigEndian.Uint16(b[k:...]) with a constant k is the hand-written b[k]<<8 | b[k+1]
 	if n == "(encoding/binary.bigEndian).Uint16" {
 		if as := callArgs(c); len(as) == 2 {
